@@ -392,6 +392,18 @@ func genAdrDec(r *Rng, n int, w *bufio.Writer) {
 			}
 		case k < 90: // truncated
 			b = b[:r.Intn(len(b))]
+		case k < 92: // checksum-valid segwit strings with a foreign human-readable part
+			h := r.pickStr("exx", "lqx", "exq", "tlqq", "elx", "ertt", "lq1", "e", "ex1ex") 
+			prog := r.Bytes(r.Pick(20, 32))
+			if r.Bool() {
+				conv, _ := bech32.ConvertBits(prog, 8, 5, true)
+				x, _ := bech32.Encode(h, append([]byte{0}, conv...))
+				b = []byte(x)
+			} else {
+				conv, _ := blech32.ConvertBits(append(r.Bytes(33), prog...), 8, 5, true)
+				x, _ := b32Encode(h, append([]byte{0}, conv...), blech32.BLECH32)
+				b = []byte(x)
+			}
 		case k < 95: // garbage with a recognised prefix
 			b = []byte(r.pickStr("ex", "lq", "ert", "el", "tex", "tlq", "ex1", "lq1", "el1q", "tlq1p"))
 			for j := r.Intn(60); j > 0; j-- {
@@ -454,7 +466,7 @@ func genAdrForm(r *Rng, n int, w *bufio.Writer) {
 		args := fmt.Sprintf("%d %d %s %s", net, ty, hx(r.Bytes(adrPayloadLen(ty))), hx(genKey33(r)))
 		fmt.Fprintf(w, "adrform %s\n", args)
 		if ty >= 2 {
-			fmt.Fprintf(w, "adrcase %s\nadrconst %s\n", args, args)
+			fmt.Fprintf(w, "adrcase %s\nadrconst %s\nadrforeign %s\n", args, args, args)
 		}
 	}
 }
@@ -786,3 +798,28 @@ func init() {
 	runs["adrnest"] = runAdrNest
 	gens["adrnest"] = genAdrNest
 }
+
+// K for the foreign-prefix strings: what the decoders say about the bech32 and blech32 spelling under "<hrp>x"
+func runAdrForeign(t *Toks) string {
+	net := adrNets[t.Int()]
+	ty := t.Int()
+	payload, key := t.Hex(), t.Hex()
+	ver := adrVersionByte(net, ty)
+	conv, _ := bech32.ConvertBits(payload, 8, 5, true)
+	data := append([]byte{ver}, conv...)
+	var x string
+	if ver == 0 {
+		x, _ = bech32.Encode(net.Bech32+"x", data)
+	} else {
+		x, _ = bech32.EncodeM(net.Bech32+"x", data)
+	}
+	bconv, _ := blech32.ConvertBits(append(cp(key), payload...), 8, 5, true)
+	enc := blech32.BLECH32
+	if ver == 1 {
+		enc = blech32.BLECH32M
+	}
+	y, _ := b32Encode(net.Blech32+"x", append([]byte{ver}, bconv...), enc)
+	return adrDecLine(x) + " ;; " + adrDecLine(y)
+}
+
+func init() { runs["adrforeign"] = runAdrForeign }
